@@ -51,13 +51,6 @@ def sigAB : List Param := [⟨['a'], 0⟩, ⟨['b'], 1⟩]
 
 def rev (l : List Nat) : List Nat := l.reverse
 
-theorem side_current {avoid : List Name} {ps : List Param}
-    (h1 : ∀ n ∈ names ps, n ≠ []) (h2 : ∀ n ∈ names ps, n ∉ avoid) : Side Cfg.current avoid ps :=
-  ⟨Or.inr h1, Or.inr h2⟩
-
-theorem side_fixed (avoid : List Name) (ps : List Param) : Side Cfg.fixed avoid ps :=
-  ⟨Or.inl rfl, Or.inl rfl⟩
-
 private theorem okNames (cfg : Cfg) {ps : List Param} (hv : ValidSig ps) (hs : Side cfg [fName] ps) :
     NamesOk [fName] (effParams cfg [fName] paramPrefix ps) :=
   effParams_namesOk cfg (by simp [paramPrefix]) (by simp [fName, paramPrefix]) ps hv hs
